@@ -315,6 +315,8 @@ def run_case(p: Partial, w: RTWorld, value: Any, thr: int, cfg: dict, rp: dict, 
         p.count("externalised" if ext else "inline")
         if ext:
             _bijection(p, refs, sx, content, value, c, rp)
+            if not p.samples and L > 8:
+                p.sample({**c, "value": content[:120], "stored_argument": sx, "worker_read_back": crep(got["x"])[:120]})
     if last_inv is None:
         return
     # ---- result (written by the worker side, read by the client side)
@@ -407,8 +409,6 @@ def _values_unit(item: tuple) -> Partial:
             for thr in thresholds(L):
                 w.set_threshold(thr)
                 run_case(p, w, v, thr, {**cfg, "index": idx}, rp(idx, thr), False, refs, later)
-            if len(p.samples) < 1 and idx == lo:
-                p.sample({**cfg, "value": crep(v)[:120], "serialized_length": L, "thresholds": thresholds(L)})
         reread(p, w, later, lambda v, c: rp(c["index"], c["thr"]), False)
     else:
         # configuration through config_values (the public path), new app objects for every case,
@@ -986,12 +986,17 @@ def run(ctx: Ctx) -> None:
         work += [("pairs", (keys, s, step)) for s in range(step)]
         work += [("spelling", (ser, b)) for ser in SERIALIZERS for b in env.BACKENDS]
         work += [("callpairs", (ser,)) for ser in SERIALIZERS]
-    # VERIF_SEED only rotates the order of the independent units
+    # VERIF_SEED is not used: the units are independent and merged in item order
     parts = par.pmap(_dispatch, work)
-    rot = ctx.seed % max(1, len(parts))
-    del rot  # results are merged in item order whatever the execution order
-    for part in parts:
+    by_kind: dict = {}
+    for (kind, _it), part in zip(work, parts):
+        by_kind.setdefault(kind, []).extend(part.samples)
+        part.samples = []
         ctx.merge(part)
+    for k in range(3):  # a mix of real cases of every part
+        for kind in UNITS:
+            if len(by_kind.get(kind, [])) > k:
+                ctx.sample({"part": kind, **by_kind[kind][k]}, limit=8)
     if "store_states" in ctx.sets:
         ctx.count("states", len(ctx.sets["store_states"]))
         ctx.extra["store_states"] = len(ctx.sets.pop("store_states"))
